@@ -192,6 +192,7 @@ theorem down_up_preserves (find : Finder) (hf : FinderOK find) (m m' : Mem) (t :
     (heven : t = .f1 → EvenBlues c.parts.hint) :
     ∃ r c', read d mp = some r ∧ observe r = some c' ∧ Preserved find t m.maps mp c c' := by
   obtain ⟨d', hd', rfl⟩ := save_some find m m' t inPlace c hc hs
+  rw [(afterSave_bound m c t _ d').1] at hb
   simp only [Option.some.injEq] at hb
   subst hb
   exact preserved_of_write find hf t m.maps mp c d' (observe_wf m c wf hc) hd' hmaps heven
